@@ -80,6 +80,7 @@ def budget(tier):
     return dict(workers=14, examples=12000, wall=1500)
 
 
+MANY_SEPARATORS = '_`^~:|!=@*/$?+()[]abcdefg'    # 24 distinct grouping separators: 24 distinct sets of decimal format symbols
 SIMPLE_SHEETS = [
     '<xsl:stylesheet version="1.0" xmlns:xsl="%s"><xsl:output method="xml"/><xsl:template match="/"><out><xsl:apply-templates/></out></xsl:template>'
     '<xsl:template match="*"><e n="{name()}"><xsl:number level="multiple" count="*" format="1.a.I"/><xsl:value-of select="format-number(count(*) div 3, \'#,##0.00\')"/><xsl:apply-templates select="@*|node()"/></e></xsl:template>'
@@ -93,12 +94,12 @@ SIMPLE_SHEETS = [
     # MANY of everything that is kept in a table or a cache of bounded size: 24 named decimal formats (all used, twice), keys, attribute
     # sets, modes, named templates, global variables, namespaces
     ('<xsl:stylesheet version="1.0" xmlns:xsl="%s" ' % XSL + ' '.join('xmlns:n%d="urn:n%d"' % (i, i) for i in range(24)) + '><xsl:output method="xml"/>' +
-     ''.join('<xsl:decimal-format name="d%d" decimal-separator="%s" grouping-separator="%s"/>' % (i, ',;:|'[i % 4], '._~!'[i % 4]) for i in range(24)) +
+     ''.join('<xsl:decimal-format name="d%d" decimal-separator="," grouping-separator="%s"/>' % (i, MANY_SEPARATORS[i]) for i in range(24)) +
      ''.join('<xsl:key name="k%d" match="*" use="count(*) + %d"/>' % (i, i) for i in range(24)) +
      ''.join('<xsl:attribute-set name="s%d"><xsl:attribute name="a%d">%d</xsl:attribute></xsl:attribute-set>' % (i, i, i) for i in range(24)) +
      ''.join('<xsl:variable name="g%d" select="%d + count(//*)"/>' % (i, i) for i in range(24)) +
      '<xsl:template match="/"><out>' +
-     ''.join('<f n="{format-number(1234.5 + %d, \'#%s##0%s0\', \'d%d\')}"/>' % (i, '._~!'[i % 4], ',;:|'[i % 4], i) for i in list(range(24)) + list(range(24))) +
+     ''.join('<f n="{format-number(1234.5 + %d, \'#%s##0%s0\', \'d%d\')}"/>' % (i, MANY_SEPARATORS[i], ',', i) for i in list(range(24)) + list(range(24))) +
      ''.join('<k xsl:use-attribute-sets="s%d" c="{count(key(\'k%d\', %d))}" v="{$g%d}"><n%d:e/><xsl:apply-templates select="*" mode="m%d"/><xsl:call-template name="t%d"/></k>' % (i, i, i, i, i, i, i)
              for i in range(24)) +
      '</out></xsl:template>' +
